@@ -208,6 +208,13 @@ def verdict_fault(desc):
     # valid twin first: must build (and run) silently
     exc0, w0, res0, _ = _run_script(copy.deepcopy(t), None, run=True)
     if exc0 is not None:
+        import openmdao.api as om
+        from oasv.core import Discard
+
+        if isinstance(exc0, om.AnalysisError) or "infs or NaNs" in str(exc0):
+            # the aerostructural coupling of this (valid) configuration does not converge: that is an analysis outcome,
+            # reported loudly, not a verdict on configuration validation -- nothing to compare the faulty twin with
+            raise Discard("valid template does not converge: %s" % str(exc0)[:120])
         out.fail("valid/raised", "valid template raised %s: %s" % (type(exc0).__name__, str(exc0)[:200]))
         return out
     keyw = [x for x in w0 if "Key `" in x]
